@@ -97,6 +97,27 @@ const NODROP_SHAPES: &[(&str, &str, &str)] = &[
     ("option-payload", "let _o = Option::Some(NEW);", "match Option::Some(NEW) { Option::Some(x) => eat_nodrop(x), Option::None => {} }"),
 ];
 
+/// Hand-written shapes in which the second use happens through a pattern, a member, an argument
+/// list or a `ref` - forms the (move, use) grid above does not produce. (name, violating, twin)
+const SPECIAL: &[(&str, &str, &str)] = &[
+    ("catch-all-rebind/enum", "let v = Carrier::A(array![1]); match v { Carrier::A(_) => {}, other => { eat(other); } }", "let v = Carrier::A(array![1]); match v { Carrier::A(_) => {}, _ => {} }"),
+    ("catch-all-rebind/enum-first-arm-binds", "let v = Carrier::A(array![1]); match v { Carrier::A(a) => { eat(a); }, other => { eat(other); } }", "let v = Carrier::A(array![1]); match v { Carrier::A(a) => { eat(a); }, Carrier::B => {} }"),
+    ("catch-all-rebind/option", "let v = Option::Some(array![1]); match v { Option::Some(_) => {}, other => { eat(other); } }", "let v = Option::Some(array![1]); match v { Option::Some(_) => {}, Option::None => {} }"),
+    ("catch-all-rebind/nested", "let v = Carrier::A(array![1]); match Option::Some(v) { Option::Some(Carrier::A(_)) => {}, Option::Some(other) => { eat(other); }, Option::None => {} }", "let v = Carrier::A(array![1]); match Option::Some(v) { Option::Some(Carrier::A(_)) => {}, Option::Some(_) => {}, Option::None => {} }"),
+    ("catch-all-rebind/in-branch", "let v = Carrier::A(array![1]); if c { match v { Carrier::A(_) => {}, other => { eat(other); } } }", "let v = Carrier::A(array![1]); if c { match v { Carrier::A(_) => {}, _ => {} } }"),
+    ("partial-move/member-then-whole", "let h = Holder { a: array![1], n: 2 }; let a = h.a; eat(a); eat(h);", "let h = Holder { a: array![1], n: 2 }; let a = h.a; eat(a);"),
+    ("partial-move/destructure-then-whole", "let h = Holder { a: array![1], n: 2 }; let Holder { a, n: _ } = h; eat(a); eat(h);", "let h = Holder { a: array![1], n: 2 }; let Holder { a, n: _ } = h; eat(a);"),
+    ("partial-move/member-twice", "let h = Holder { a: array![1], n: 2 }; let a = h.a; let b = h.a; eat(a); eat(b);", "let h = Holder { a: array![1], n: 2 }; let a = h.a; eat(a);"),
+    ("ref-after-move", "let mut v: Array<felt252> = array![1]; eat(v); v.append(2);", "let mut v: Array<felt252> = array![1]; v.append(2); eat(v);"),
+    ("twice-in-arguments/tuple", "let v: Array<felt252> = array![1]; let _t = (v, v);", "let v: Array<felt252> = array![1]; let _t = (v, 1);"),
+    ("twice-in-arguments/array-literal", "let v: Array<felt252> = array![1]; let _t = array![v, v];", "let v: Array<felt252> = array![1]; let _t = array![v];"),
+    ("twice-in-arguments/struct", "let v: Array<felt252> = array![1]; let _t = Wrap { inner: (v, v) };", "let v: Array<felt252> = array![1]; let _t = Wrap { inner: (v, 2) };"),
+    ("if-let-then-whole", "let v = Option::Some(array![1]); if let Option::Some(x) = v { eat(x); } eat(v);", "let v = Option::Some(array![1]); if let Option::Some(x) = v { eat(x); }"),
+    ("match-binding-then-whole", "let v = Carrier::A(array![1]); match v { Carrier::A(a) => { eat(a); }, Carrier::B => {} } eat(v);", "let v = Carrier::A(array![1]); match v { Carrier::A(a) => { eat(a); }, Carrier::B => {} }"),
+    ("loop-carried-rebind", "let mut v: Array<felt252> = array![1]; let mut i = 0_u32; while i < k { let w = v; eat(w); i += 1; }", "let mut v: Array<felt252> = array![1]; let mut i = 0_u32; while i < k { let w = v; v = array![]; eat(w); i += 1; }"),
+    ("moved-in-condition", "let v: Array<felt252> = array![1]; if Option::Some(v).is_some() { } eat(v);", "let v: Array<felt252> = array![1]; if Option::Some(v).is_some() { }"),
+];
+
 pub struct Case {
     pub name: String,
     pub violating: String,
@@ -145,6 +166,9 @@ pub fn all_cases() -> Vec<Case> {
                 twin: function(&good.replace("NEW", n)),
             });
         }
+    }
+    for (name, bad, good) in SPECIAL {
+        out.push(Case { name: format!("special/{name}"), violating: function(bad), twin: function(good) });
     }
     // A parameter of a type without Drop that is never consumed.
     out.push(Case {
@@ -243,8 +267,9 @@ pub fn select(cases: &[Case], rng: &mut Rng, n: usize) -> Vec<usize> {
         idx.swap(i, rng.below(i + 1));
     }
     // Undropped cases are few: always all of them.
-    let mut out: Vec<usize> = idx.iter().copied().filter(|i| cases[*i].name.starts_with("undropped")).collect();
-    out.extend(idx.into_iter().filter(|i| !cases[*i].name.starts_with("undropped")).take(n));
+    let always = |n: &str| n.starts_with("undropped") || n.starts_with("special");
+    let mut out: Vec<usize> = idx.iter().copied().filter(|i| always(&cases[*i].name)).collect();
+    out.extend(idx.into_iter().filter(|i| !always(&cases[*i].name)).take(n));
     out
 }
 
